@@ -18,8 +18,9 @@ static float adv_cb(const void *, gr_uint16 gid) { return 5.0f + gid % 7; }
 struct Shared { TableSet ts; MemFace mf; gr_face *face = nullptr; gr_font *font = nullptr; const Config *cfg = nullptr; std::string out[4]; };
 static Shared *g_sh;
 static unsigned long g_gets0 = 0;
-static std::string body_result(gr_face *face, gr_font *font, const std::string &tx, int dir) {
-    gr_feature_val *fv = gr_face_featureval_for_lang(face, gr_face_n_languages(face) ? gr_face_lang_by_index(face, 0) : 0);
+static std::string body_result(gr_face *face, gr_font *font, const std::string &tx, int dir, int who = 0) {
+    // every thread asks for a DIFFERENT language, none of them the first of the table (lookups that reorder or memoise would collide)
+    unsigned nl = gr_face_n_languages(face); gr_feature_val *fv = gr_face_featureval_for_lang(face, nl ? gr_face_lang_by_index(face, uint16_t((unsigned(who) + 1) % nl)) : 0);
     gr_segment *s = gr_make_seg(font, face, 0, fv, gr_utf8, tx.c_str(), utf8_count(tx), dir);
     SegDumpOpts o; o.face = face; o.font = font; std::string d = dump_segment(s, o);
     if (gr_face_n_fref(face)) { uint16_t l = 0x409; uint32_t n = 0; void *lab = gr_fref_label(gr_face_fref(face, 0), &l, gr_utf8, &n); appf(d, "label %u %s\n", n, lab ? (const char*)lab : "(null)"); if (lab) gr_label_destroy(lab); }
@@ -38,7 +39,7 @@ static void *thread_main(void *arg) {
     trk_sched_thread_enter(id); trk_thread_begin(id);
 #endif
     if (g_sh->cfg->mode == 3) gr_tag_to_str(0x61626364u + unsigned(id), g_ctrl_buf);
-    std::string r = body_result(g_sh->face, g_sh->font, g_sh->cfg->texts[id], g_sh->cfg->dir);
+    std::string r = body_result(g_sh->face, g_sh->font, g_sh->cfg->texts[id], g_sh->cfg->dir, id);
 #ifdef VF_TRK
     { static char buf[4][1 << 16]; size_t n = r.size() < sizeof buf[0] - 1 ? r.size() : sizeof buf[0] - 1; for (size_t i = 0; i < n; ++i) buf[id][i] = r[i]; buf[id][n] = 0; r.clear(); r.shrink_to_fit(); trk_thread_end(); g_sh->out[id] = buf[id]; trk_sched_thread_exit(id); }
 #else
@@ -51,7 +52,7 @@ static bool make_shared(Shared &sh, const Config &c) {
     sh.face = sh.mf.make(c.mode == 1 ? gr_face_default : gr_face_preloadAll); if (!sh.face) return false;
     sh.font = c.mode == 2 ? gr_make_font_with_advance_fn(14.f, &sh, adv_cb, sh.face) : gr_make_font(14.f, sh.face); return sh.font != nullptr;
 }
-static void reference(const Config &c, std::vector<std::string> &ref) { Shared r; if (!make_shared(r, c)) return; for (int i = 0; i < c.nthreads; ++i) ref.push_back(body_result(r.face, r.font, c.texts[i], c.dir)); gr_font_destroy(r.font); gr_face_destroy(r.face); }
+static void reference(const Config &c, std::vector<std::string> &ref) { Shared r; if (!make_shared(r, c)) return; for (int i = 0; i < c.nthreads; ++i) ref.push_back(body_result(r.face, r.font, c.texts[i], c.dir, i)); gr_font_destroy(r.font); gr_face_destroy(r.face); }
 
 #ifdef VF_TRK
 // one serialised execution under the given choice list; returns decisions
